@@ -128,6 +128,33 @@ def _check_site(chk, counts, summaries, func, stmt_node, root, self_gating, sink
     return False, (func, stmt_node, info or ("facts on the failing path: " + (" and ".join(show(f) for f in cex) if cex else "none")))
 
 
+def _r18f(chk, repo) -> None:
+    f = repo.fn("src/sqlfluff/core/linter/common.py", "ParsedString.root_variant")
+    cfg = cfg_of(f)
+    n = 0
+    for r in [r for r in walk_local(f) if isinstance(r, ast.Return)]:
+        n += 1
+        v = r.value
+        if v is None or (isinstance(v, ast.Constant) and v.value is None):
+            continue
+        vals = [v]
+        if isinstance(v, ast.Name):
+            os_ = origins(cfg, v, r)
+            vals = [o.expr if o.kind == "expr" else None for o in os_]
+        ok = all(
+            x is not None and isinstance(x, ast.Subscript) and isinstance(x.slice, ast.Constant) and x.slice.value == 0 and norm(x.value).endswith("parsed_variants")
+            for x in vals
+        )
+        chk.require(
+            ok, "R18f", r,
+            f"root_variant() can return `{short(v, 40)}`, which is not parsed_variants[0]: when the real rendering fails to parse, an alternate rendering (an un-taken branch) is "
+            "linted in its place, its parse errors stand in for the file's, and every fix gate sees a clean file",
+            detail="root_variant: the first variant or None",
+        )
+    chk.count("R18f.root_variant_returns", n)
+    chk.floor("R18f.root_variant_returns", 2)
+
+
 def _r18e(chk, repo) -> None:
     """The counts that gate fixing see only the errors that reach the rendered file."""
     from ..flowutil import must_pass
@@ -182,6 +209,8 @@ def run(chk) -> None:
     chk.rule("R18b", "on loop-limit exhaustion the tree saved before the first pass is returned and all initial lint errors lose their fixes")
     chk.rule("R18c", "the discard step empties fixes for every lint error of every file with a non-zero unfiltered TMP/PRS count")
     chk.rule("R18d", "persist_tree self-gates on a fixable count; persist_changes wrappers only forward")
+    chk.rule("R18f", "the root variant is the real rendering or nothing: ParsedString.root_variant() returns parsed_variants[0] (when it has a tree) or None, never another variant -- the parse errors that gate fixing are read from the root variant")
+    _r18f(chk, repo)
     chk.rule("R18e", "every templating error the templater yields next to a variant is kept: in render_string's loop over process_with_variants the yielded error list is accumulated on every path through the body, also the one that leaves the loop, and that list is what the RenderedFile carries")
     _r18e(chk, repo)
     counts = Counts(repo)
@@ -473,6 +502,12 @@ CLI = "src/sqlfluff/cli/commands.py"
 API = "src/sqlfluff/api/simple.py"
 
 VARIANTS = [
+    Variant(
+        "root-variant-falls-back-to-an-alternate-rendering", "src/sqlfluff/core/linter/common.py",
+        "        root_variant = self.parsed_variants[0]\n        if not root_variant.tree:\n",
+        "        root_variant = next((v for v in self.parsed_variants if v.tree), self.parsed_variants[0])\n        if not root_variant.tree:\n",
+        "R18f", "root_variant", "seeded C18-7 (same effect)",
+    ),
     Variant(
         "variant-limit-break-before-errors-are-kept", LINTER,
         "                templater_violations += templater_errs\n                if len(templated_variants) >= variant_limit:\n                    # Stop if we hit the limit.\n                    break\n",
